@@ -131,8 +131,9 @@ META = {
     "functions_encoded": ["nifty.cl.minimization.optimize_kl.{optimize_kl,_save_random_state,_load_random_state,_pickle_save_values,"
                           "_pickle_load_values,_file_name_by_strategy}", "nifty.cl.minimization.sample_list.{ResidualSampleList.save,load,load_mean,"
                           "SampleList.save,load,_save_to_disk,_ensure_proper_sample_list_ending,_list_local_sample_files}"],
-    "bounds": {"global iterations": 3, "samples": "0 / 2 (mirrored: 4)", "crash points": "every open-for-write, remove, rename below the output directory; one crash per history"},
-    "stubs": ["kill = BaseException raised at the crash point (finally blocks run, a real kill would not run them)",
+    "bounds": {"global iterations": 3, "samples": "0 / 2 (mirrored: 4)", "crash points": "before every open-for-write / remove / replace below the output directory, after every create/truncate, after every remove / replace; one crash per history"},
+    "stubs": ["kill = BaseException raised at the crash point; files opened for writing below the output directory are wrapped so that data reaches "
+              "the disk only at flush()/close() and is discarded once the run is killed (the unwinding exception runs `with` blocks, a real kill would not flush)",
               "fresh process = nifty.cl.random state reset"],
     "outside": ["partial writes inside one write() call / torn pages", "two crashes in one history", "MPI runs", "plots and operator exports"],
     "assumptions": [],
